@@ -124,6 +124,17 @@ CHECKS = {
         ref="DESIGN.md 6 (C07)",
         technique="TLC-enumerated signatures x call shapes x placements rendered to real classes; TLC trace validation "
                   "of the emitted call against the specification's Python binding (cross-checked with inspect)"),
+    "C08": dict(
+        text="spec/TypeFollow.tla gives the typing rules (TypeOf, StreamResult) over a class model with inheritance, a "
+             "Generic[T] class, a generic subclass fixing T, one re-parameterising it, a custom Iterable subclass with "
+             "own methods and a subclass fixing its parameter, a registered collection class adding operators and "
+             "methods without return annotation. spec/GenTypes.tla runs the follower as a transition system (each step "
+             "applies one rule that fits the current type, inside and across <= 3 stream operators); real classes are "
+             "generated from the exported class model and TLC compares every observed item_type (as a type term) and "
+             "every Where refusal with the specification.",
+        ref="DESIGN.md 6 (C08)",
+        technique="TLA+ typing rules over a class model; TLC-enumerated well-typed chains rendered to real generated "
+                  "classes; TLC trace validation of observed item types"),
 }
 
 ORDER = ["C%02d" % i for i in range(1, 21)]
